@@ -306,6 +306,9 @@ def check_C14(run):
                                   simulate=("num=%d" % (400 if q else 20000)), ))]
     fams.append(("race-revoked", dict(over=dict(MaxT=1 if q else 2, Ticks="{1}", MaxKids=5 if q else 6, MaxRecs=1, MaxRevokes=1, EmitEvery=4 if q else 20, OpKinds='{"Enc"}' if q else '{"Enc", "Dec"}'), procs=("p1", "p2"),
                                       ik=("session",) if q else ("session", "none"), sk=(True,))))
+    # three processes (the interleavings merge into ~100 k states under the partial-order reduction)
+    fams.append(("race-3proc", dict(over=dict(MaxT=1, Ticks="{1}", MaxKids=6, MaxRecs=1, MaxRevokes=1, EmitEvery=40 if q else 4, OpKinds='{"Enc"}'), procs=("p1", "p2", "p3"),
+                                    ik=("session",), sk=(True,))))
     # warm process still trusting a system key that was revoked in the store, cold process rotating it, both creating the IK of a second partition
     fams.append(("race-revoked-sk-2parts", dict(over=dict(MaxT=2, Ticks="{1}", MaxKids=5, MaxRecs=1, MaxRevokes=1, RevokeKinds='{"SK"}', EmitEvery=20 if q else 3, OpKinds='{"Enc"}'), procs=("p1", "p2"), parts=("a", "b"),
                                                 ik=("session",), sk=(True,))))
